@@ -7,6 +7,8 @@
 //   D  with h = 0 nothing is sent and silence is never fatal (2.5 s);
 //   F  ANY inbound traffic counts as liveness: one large frame (a 100 000 byte body frame, also a 3 000 byte one) whose bytes arrive in small pieces
 //      every h/3 for 4 s - nothing else can be interleaved inside a frame - must not get the server declared dead, and the message arrives;
+//   G  the same while the client's own close is pending (Close sent, CloseOk never comes, server silent): close() ends with
+//      MissedServerHeartbeats within (2h, 4 s) - heartbeat supervision does not stop when writes are sealed;
 //   E  the lower of the two sides' values is what counts: server 1 s / client 60 s behaves like A, server 0 / client 1 s like D.
 include!("/verif/witness/_common/live_broker.rs");
 use crate::{Auth, Connection, ConnectionOptions, ConnectionTuning, Error};
@@ -119,4 +121,24 @@ fn verif_timing_c17_f_bytes_of_one_slow_frame_count_as_liveness() {
         std::mem::forget(ch);
         connection.close().unwrap_or_else(|e| panic!("{} byte body: close: {}", body_len, e));
     }
+}
+
+#[test]
+fn verif_timing_c17_g_silent_server_while_the_clients_close_is_pending() {
+    let (ctl, connection) = open(1, 1);
+    ctl.withhold(0, 10, 50); // the server never answers Connection.Close
+    let silent_since = Instant::now();
+    let (tx, rx) = std::sync::mpsc::channel();
+    thread::spawn(move || {
+        let r = connection.close();
+        let _ = tx.send(r.map_err(|e| e.to_string()));
+    });
+    match rx.recv_timeout(Duration::from_secs(8)) {
+        Ok(Err(e)) => assert!(e.contains("heartbeat"), "close() against a silent server ended with {:?}, expected MissedServerHeartbeats", e),
+        Ok(Ok(())) => panic!("close() succeeded although the server never answered"),
+        Err(_) => panic!("close() against a server that went silent did not return within 8 s: heartbeat supervision stopped while the close was pending"),
+    }
+    let waited = silent_since.elapsed();
+    assert!(waited >= Duration::from_millis(1900), "declared dead after only {:?} of silence", waited);
+    assert!(waited < Duration::from_secs(5), "declared dead only after {:?}", waited);
 }
